@@ -276,9 +276,18 @@ def eval_cases(d, timeout=3000):
         return False, [], "expected %d result chunks, got %d\n%s" % (meta["chunks"], nprinted, out[-2000:])
     flat = " ".join(out.split())
     bad = []
-    for m in re.finditer(r"bad_\d+ = \[(.*?)\] : list", flat):
-        for mm in re.finditer(r"\((\d+), (\d+)\)", m.group(1)):
-            bad.append((int(mm.group(1)), int(mm.group(2))))
+    nlists = 0
+    for m in re.finditer(r"bad_\d+ = (?:\[(.*?)\]|nil)\s*: list", flat):
+        nlists += 1
+        body = (m.group(1) or "").strip()
+        pairs = re.findall(r"\(\s*(\d+)(?:%\w+)?\s*,\s*(\d+)(?:%\w+)?\s*\)", body)
+        if body and not pairs:
+            return False, [], "cannot parse non-empty result list: %s" % body[:300]
+        if body and len(pairs) != body.count("("):
+            return False, [], "result list parsed only partly: %s" % body[:300]
+        bad += [(int(a), int(b)) for a, b in pairs]
+    if nlists != meta["chunks"]:
+        return False, [], "parsed %d result lists, expected %d\n%s" % (nlists, meta["chunks"], out[-2000:])
     return True, bad, "coqc cases.v ok (%.1fs)" % (time.time() - t0)
 
 
